@@ -59,6 +59,11 @@ pub struct TScenario {
     pub lon: f64,
     pub max_range: f64,
     pub events: Vec<TEv>,
+    /// how much of the library's diagnostic output is switched on while the scenario runs
+    /// (0 nothing, 1 ERROR .. 5 TRACE): a configuration knob like any other — what the tracker does
+    /// must not depend on who is listening
+    #[serde(default)]
+    pub log_level: u8,
 }
 
 pub struct TrackerEngine {
@@ -246,7 +251,7 @@ fn generate_long_haul(rng: &mut Rng) -> TScenario {
         }
         t += 0.5;
     }
-    TScenario { lat, lon, max_range: 1e9, events }
+    TScenario { lat, lon, max_range: 1e9, events, log_level: 0 }
 }
 
 /// Crowded sky: a few hundred distinct addresses with a handful of frames each and expiry cycles
@@ -300,7 +305,7 @@ fn generate_crowded(rng: &mut Rng) -> TScenario {
     let last = events.last().map(TEv::t).unwrap_or(0);
     let wait = *rng.pick(&[filter_t * NS, 10 * filter_t * NS, filter_t * NS + 1]);
     events.push(TEv::Prune { t: last + wait, secs: filter_t });
-    TScenario { lat, lon, max_range: 500.0, events }
+    TScenario { lat, lon, max_range: 500.0, events, log_level: 0 }
 }
 
 /// More than 4096 aircraft tracked at once, a long silence, then new arrivals; the caller's own
@@ -330,7 +335,7 @@ fn generate_mega_crowd(rng: &mut Rng) -> TScenario {
         t += 50_000_000;
     }
     events.push(TEv::Prune { t, secs: 3600 });
-    TScenario { lat: 35.0, lon: -80.0, max_range: 500.0, events }
+    TScenario { lat: 35.0, lon: -80.0, max_range: 500.0, events, log_level: 0 }
 }
 
 /// One contact heard 100 000+ times (a fixed transponder, an aircraft in a holding pattern),
@@ -351,7 +356,7 @@ fn generate_long_count(rng: &mut Rng) -> TScenario {
     let end = 1_000 + count as u64 * 10_000_000;
     events.push(TEv::Frame { t: end, hex: wire::hex(&wire::df17(5, b, wire::me_identification(4, 0, "OTHER"))), note: String::new() });
     events.push(TEv::Prune { t: end, secs: 1 << 40 });
-    TScenario { lat: 35.0, lon: -80.0, max_range: 500.0, events }
+    TScenario { lat: 35.0, lon: -80.0, max_range: 500.0, events, log_level: 0 }
 }
 
 /// A survivor with a very long track (more than 8192 accepted positions) across expiry calls that
@@ -373,7 +378,7 @@ fn generate_long_track_with_expiry(rng: &mut Rng) -> TScenario {
     events.push(TEv::Prune { t: end, secs: 60 });
     events.push(TEv::Burst { t: end + dt, dt, hexes, count: 4 });
     events.push(TEv::Prune { t: end + 5 * dt, secs: 60 });
-    TScenario { lat, lon, max_range: 500.0, events }
+    TScenario { lat, lon, max_range: 500.0, events, log_level: 0 }
 }
 
 #[allow(clippy::too_many_lines)]
@@ -692,7 +697,7 @@ pub fn generate(rng: &mut Rng, fault_free: bool, focus: &str) -> TScenario {
             *t = t.saturating_sub(b);
         }
     }
-    TScenario { lat, lon, max_range, events }
+    TScenario { lat, lon, max_range, events, log_level: 0 }
 }
 
 impl TrackerEngine {
@@ -735,7 +740,11 @@ impl Engine for TrackerEngine {
         self.prop[1..].parse().unwrap_or(0)
     }
     fn generate(&self, rng: &mut Rng, fault_free: bool) -> TScenario {
-        generate(rng, fault_free, self.prop)
+        let mut sc = generate(rng, fault_free, self.prop);
+        if !fault_free {
+            sc.log_level = *rng.pick(&[0u8, 0, 0, 1, 3, 4, 4, 5, 5]);
+        }
+        sc
     }
     fn execute(&self, sc: &TScenario) -> Outcome {
         exec::execute(sc, exec::Mask::only(self.prop))
@@ -773,6 +782,9 @@ impl Engine for TrackerEngine {
                     }
                 }
             }
+        }
+        if sc.log_level != 0 {
+            c.push(TScenario { log_level: 0, ..sc.clone() });
         }
         // simpler receiver / range
         if sc.lat != 0.0 || sc.lon != 0.0 {
